@@ -48,7 +48,7 @@ EXTENDS Integers, Sequences, FiniteSets, TLC, Json
 CONSTANTS Alphabet,     \* "quick" | "thorough" | "deep" | "small" | "small12" | "multi" : which operation alphabet
           Mode,         \* "cover" | "seq" | "walk"
           MaxOps,       \* length of the operation sequences
-          Legacy        \* subset of {"exact-keys", "empty-subfield"}: model falco as it was before the
+          Legacy        \* subset of {"exact-keys", "empty-subfield", "add-unassigned", "unset-ws-truncates"}: falco before the
                         \* corresponding fix: commit (the defect then shows as a violated invariant)
 
 ----------------------------------------------------------------------------
@@ -107,7 +107,8 @@ FieldValsFor(k) == IF Alphabet = "quick" /\ k # <<"a">> THEN {vX} ELSE FieldVals
 AddVals   == CASE Alphabet = "quick" -> {vX}
                [] Alphabet = "thorough" -> {vX, vE, vXsY, NULL}
                [] OTHER -> {vX, vE}
-AppVals   == CASE Alphabet = "quick" -> {}
+\* (no += in random walks: the statement speaks of set / add / unset sequences; += stays in the covers)
+AppVals   == CASE Alphabet = "quick" \/ Mode = "walk" -> {}
                [] Alphabet = "thorough" -> {vY, NULL}
                [] OTHER -> {vY}
 
@@ -218,6 +219,8 @@ UnsetFieldStr(s, key) ==
   IF ~f.ok THEN s
   ELSE IF f.start = 1 THEN SubSeq(s, f.end, Len(s))                                     \* at the beginning
   ELSE IF s[f.end - 1] = Sep THEN SubSeq(s, 1, f.start - 1) \o SubSeq(s, f.end - 1, Len(s))  \* in the middle
+  ELSE IF f.end <= Len(s) /\ "unset-ws-truncates" \notin Legacy                           \* in the middle, whitespace follows
+       THEN SubSeq(s, 1, f.start - 1) \o <<Sep>> \o SubSeq(s, f.end, Len(s))
   ELSE SubSeq(s, 1, f.start - 1)                                                       \* at the end
 
 \* characters that make setField quote the value (those of them that are in the alphabet)
